@@ -467,7 +467,17 @@ def check(P: Project, R: Report) -> None:
         for s in wh[0].body[:1]:
             if isinstance(s, ast.Assign) and isinstance(s.targets[0], ast.Tuple) and ast.unparse(s.value) == f"{buf}.split('\\n', 1)" and ast.unparse(s.targets[0].elts[1]) == buf:
                 ok_split = True
-    R.ob("R6", "only complete lines are cut off the buffer, at LF", bool(wh) and ok_split, pf.where, "expected `while '\\n' in buffer: line, buffer = buffer.split('\\n', 1)`", sample="R6 while '\\n' in buffer: line, buffer = buffer.split('\\n', 1)")
+    if not (wh and ok_split):
+        # `*lines, buffer = buffer.split("\n")`: everything before the last LF is complete, the rest is carried over
+        for s_ in walk_local(loop):
+            if isinstance(s_, ast.Assign) and len(s_.targets) == 1 and isinstance(s_.targets[0], ast.Tuple) and len(s_.targets[0].elts) == 2 and isinstance(s_.targets[0].elts[0], ast.Starred) \
+                    and ast.unparse(s_.targets[0].elts[1]) == buf and ast.unparse(s_.value) == f"{buf}.split('\\n')":
+                wh, ok_split = [s_], True
+    if not (wh and ok_split):
+        cuts = [c_ for c_ in walk_local(loop) if isinstance(c_, ast.Call) and isinstance(c_.func, ast.Attribute) and c_.func.attr in ("splitlines", "split", "partition", "rsplit", "rpartition", "find", "index") and ast.unparse(c_.func.value) == buf]
+        if not any(c_.func.attr == "splitlines" for c_ in cuts):
+            raise AnalysisError(f"{rel}: the event-stream reader cuts its buffer in a shape this rule cannot read ({[ast.unparse(c_)[:40] for c_ in cuts][:2]}; known: `while '\\n' in buffer: line, buffer = buffer.split('\\n', 1)`, `*lines, buffer = buffer.split('\\n')`)")
+    R.ob("R6", "only complete lines are cut off the buffer, at LF", bool(wh) and ok_split, pf.where, "the buffer is cut with splitlines(): lines end wherever Unicode says a line ends, and a trailing partial line is taken for a complete one", sample="R6 complete lines are cut off at LF, the rest is carried over")
     from . import _chunks
 
     _chunks.no_discard_before_accumulate(R, "R6", pf, loop, pf.qual)
